@@ -3,8 +3,8 @@
   (tools/gen/C22.py, C39.py, C30.py).  This module elaborates only when the source has
     * `entry_count.checked_mul(..).and_then(checked_add)` in `read_sketch_track`   (fixes/C22-sketch-reader.diff)
     * a capped `Vec::with_capacity` in the time-index `read_track`                  (fixes/C30.diff)
-    * `data.len() - 14 < len` in `MemoriesTrack::deserialize` / `LogicMesh::deserialize`,
-      no `debug_assert!(probe.wal_pending == 0)` in `DoctorPlanner::compute`,
+    * `data.len() - 14 < len` in `MemoriesTrack::deserialize` / `LogicMesh::deserialize`  (fixes/C22.diff),
+      no `debug_assert!(probe.wal_pending == 0)` in `DoctorPlanner::compute`              (applied: 842ec3b),
       (and `blob_reader_from_frame` pre-reads the payload, or `BlobReader` adds checked)   (fixes/C22.diff)
   With any of the original shapes the first theorem is false and the module fails to build; the
   crash characterisations and witnesses in MvProps/C22.lean hold for both shapes.
